@@ -85,10 +85,12 @@ Print Assumptions fp_sel_correct.
 
 (* every line-filter predicate the planner emits (like / notLike / ilike / notILike / match == 1 / == 0)
    means the LogQL line filter, for all four operators, on every row that carries the line text under the
-   names `samples.string` and `string` *)
+   name `samples.string` - the stored column of the source, never the alias `string` of the select (strengthened with the
+   repair regex-line-filter-reads-alias of /repo: the match() form read the bare name `string`, i.e. the line a line_format
+   stage written BEHIND the filter in the same select produces; the hypothesis asked for both names before) *)
 Theorem line_filter_correct :
   forall (RG : ReGroups) re_match parse_float json_get hash_labels (tie : forall A : Type, list A -> list A) c d op val re_lit r g line,
-    lookup "samples.string" r = Some (VStr line) /\ lookup "string" r = Some (VStr line) ->
+    lookup "samples.string" r = Some (VStr line) ->
     stage_oracle_ok re_match parse_float (PLineFilter op val re_lit) ->
     ev re_match parse_float json_get hash_labels tie (to_sqldb c d) (line_filter_clause op val re_lit) (r :: g)
     = Some (vbool (line_ok re_match line op val)).
@@ -288,3 +290,46 @@ Example line_filter_behind_line_format_reads_the_formatted_line :
                                       sel_pipeline := [PLineFormat "zzz"; PLineFilter LFContains "ell" None] |} = Some [].
 Proof. split; [exact LogqlLineFormatExamples.line_filter_behind_line_format_reads_the_formatted_line
               | exact LogqlLineFormatExamples.line_filter_behind_line_format_ignores_the_stored_line]. Qed.
+
+(* ---- `| line_format` pipelines (round 4, builder b4-c07): the LINE travels with the state. Reference run_lstages / log_rows3
+   (model/LogqlSem.v): a line_format stage replaces the line by the output of its template over the CURRENT labels
+   (LogqlTemplate.tpl_exec: text copied, {{.name}} = the label, "" when absent); every later stage (line filters, json /
+   regexp extraction) reads the new line and the query returns it; labels and fingerprint stay. Fragment 3 = the stages of
+   fragment 2 and line_format stages whose template is inside the transcribed part of text/template with every action one
+   plain field, in any order (lfmt_simple_ok: no label filter between a line_format that is the first stage to need the
+   labels and the first parser / drop). Under the same hypotheses as logql_log_partial_parsers the planned statement,
+   evaluated by SqlEval (new clause format('<pattern>', a0, ...) = LogqlTemplate.format_eval), returns logql_sem3. ---- *)
+Theorem logql_log_line_format :
+  forall (RG : ReGroups) re_match parse_float json_get hash_labels (tie : forall A : Type, list A -> list A),
+    (forall A (l : list A), Permutation (tie A l) l) ->
+    forall q c d, in_fragment3 q = true -> oracle_ok re_match parse_float q -> ctx_ok c = true -> db_ok c d ->
+    width_guard q = true -> absent_guard re_match q d ->
+    log_correct3 re_match parse_float json_get hash_labels tie q c d.
+Proof. exact logql_log_line_format_proof. Qed.
+Print Assumptions logql_log_line_format.
+(* the hypotheses are met by {b="1"} | json lvl="level" |~ "l.v" | line_format "{{.lvl}}: done {x}" |= "info: d": the regular-
+   expression filter and the line_format share a select and the filter tests the STORED line (it tested the formatted one before
+   the repair and dropped the row); the statement evaluates to the one line `info: done {x}` *)
+Example logql_log_line_format_guards_met :
+  in_fragment3 ex4_query = true /\ oracle_ok (RG := no_groups) ex4_re no_float ex4_query /\ ctx_ok ex_ctx = true /\ db_ok ex_ctx ex2_db
+  /\ width_guard ex4_query = true /\ absent_guard ex4_re ex4_query ex2_db
+  /\ match log_select ex4_query ex_ctx with
+     | Some sel => option_map (map row_out) (eval (RG := no_groups) ex4_re no_float ex2_json ex2_hash tie_id (to_sqldb ex_ctx ex2_db) sel)
+     | None => None end
+     = Some [Some {| o_fp := 102; o_labels := [("b", "1"); ("lvl", "info")]; o_line := "info: done {x}"; o_ts := 1700000000000000005 |}].
+Proof. exact line_format_guards_met. Qed.
+(* on a pipeline without line_format the two references are the same list *)
+Theorem log_rows3_is_log_rows2_without_line_format :
+  forall (RG : ReGroups) re_match parse_float json_get hash_labels q c d, no_lfmt (sel_pipeline q) = true ->
+    log_rows3 re_match parse_float json_get hash_labels q c d = log_rows2 re_match parse_float json_get hash_labels q c d.
+Proof. exact @log_rows3_no_lfmt. Qed.
+Print Assumptions log_rows3_is_log_rows2_without_line_format.
+(* THE PROPERTY IN ONE STATEMENT over the three fragments *)
+Theorem logql_log_correct_all :
+  forall (RG : ReGroups) re_match parse_float json_get hash_labels (tie : forall A : Type, list A -> list A),
+    (forall A (l : list A), Permutation (tie A l) l) ->
+    forall q c d, in_fragment q || in_fragment2 q || in_fragment3 q = true -> oracle_ok re_match parse_float q -> ctx_ok c = true ->
+    db_ok c d -> width_guard q = true -> absent_guard re_match q d ->
+    log_correct3 re_match parse_float json_get hash_labels tie q c d.
+Proof. exact logql_log_correct3_proof. Qed.
+Print Assumptions logql_log_correct_all.
